@@ -120,6 +120,15 @@ Example C05_indexof_nonvacuous :
   l_index_of [HInt 7] (HFloat 7) 0 = -1 /\ l_contains [HInt 7] (HInt 7) = true.
 Proof. vm_compute. repeat split; reflexivity. Qed.
 
+(* Clear never panics; afterwards EVERY register that aliases the receiver reads the empty list; every other cell, the heap size and the
+   environment are untouched *)
+Theorem C05_clear_step : forall s r id l, reg_list s r = Some (id, l) ->
+  let s' := fst (step_core s (LClear r)) in
+  snd (step_core s (LClear r)) = Ret ONone /\ st_env s' = st_env s /\
+  (forall r', nth_error (st_env s) r' = Some (HL id) -> reg_list s' r' = Some (id, [])) /\
+  (forall j, j <> id -> nth_error (st_heap s') j = nth_error (st_heap s) j) /\ length (st_heap s') = length (st_heap s).
+Proof. exact clear_step. Qed.
+
 Print Assumptions C05_program_refines.
 Print Assumptions C05_growth_policy_unobservable.
 Print Assumptions C05_insert_domain.
@@ -143,3 +152,4 @@ Print Assumptions C05_observers_step.
 Print Assumptions C05_indexof_first.
 Print Assumptions C05_indexof_absent_iff.
 Print Assumptions C05_contains.
+Print Assumptions C05_clear_step.
